@@ -5,6 +5,7 @@ import (
 	"strings"
 
 	"go.nanomsg.org/mangos/v3/protocol"
+	"verifharness/vt"
 )
 
 func init() { props["C13"] = runC13 }
@@ -143,6 +144,30 @@ func tailFields(obs string) string {
 	return fmt.Sprint(f)
 }
 
+// directed: "... a pipe closed or refused during Attaching, or refused by the protocol, gets neither [Attached nor
+// Detached], and the socket, its listener and its dialer carry on accepting and redialling"
+func runRejectedDialerScenario(c *Ctx, idx int, mode string, asynch bool) {
+	e := NewCExec(c, fmt.Sprintf("r%d-%d", c.Seed, idx))
+	e.NewDialer(1, asynch, 20, 0)
+	e.Dial(1)
+	td := vt.T.Dialer(e.addr("d", 1))
+	if td == nil || td.Parked() == 0 {
+		e.Finish()
+		return
+	}
+	e.DialRes(1, true, mode) // the transport connects; the hook closes the pipe during Attaching / the protocol refuses it
+	n0 := td.NAttempts()
+	e.Sleep(90)
+	e.Sleep(90)
+	if td.NAttempts() <= n0 && !e.broken {
+		c.Violate(fmt.Sprintf("core: after a connection the dialer had established was rejected (%s) the dialer made no further attempt within 180 ms although its reconnect time is 20 ms: it has stopped redialling", mode), e.Replay())
+	}
+	if td.Parked() > 0 {
+		e.DialRes(1, true, "plain") // and the next connection is admitted normally
+	}
+	e.Finish()
+}
+
 func runC13(c *Ctx) {
 	c.Rep.Rule = "random sequences on a real core socket over a scripted transport and a recording protocol: connects on listener and dialer sides, peer drops, application closes, hook closes during Attaching, protocol refusals, failed and repeated Listen, a hook parked inside Detached, socket close; " +
 		"after every operation the hook log, the protocol's AddPipe/RemovePipe log, the ids reserved in the allocator and the socket's pipe list are compared with the Lean core machine; class = (operation, shape of the observation)"
@@ -154,6 +179,16 @@ func runC13(c *Ctx) {
 		runCoreScenario(c, i, 35, false)
 	}
 	allocatorRuns(c)
+	// "its dialer carries on redialling": the dialer scripts of C14 (short real reconnect times; refused, hook-closed
+	// and dropped connections at every phase)
+	for i := 0; i < n/4; i++ {
+		runDialScenario(c, 5000+i)
+	}
+	for i, mode := range []string{"refuse", "hookclose", "refuse", "hookclose"} {
+		runRejectedDialerScenario(c, i, mode, i < 2)
+	}
+	// the pipe's read-only facts over real transports
+	runPipeFacts(c)
 }
 
 // the id allocator driven directly at every interesting counter position (wrap-arounds, ids in use ahead)
